@@ -467,11 +467,25 @@ class Check:
 
 def main(pid, level, body):
     """Entry point used by every checks/Cxx.py."""
+    c = None
     try:
         c = Check(pid, level, sys.argv[1:])
         body(c)
         rc = c.finish()
     except ToolError as e:
         print("TOOL-ERROR property=%s %s" % (pid, e), file=sys.stderr, flush=True)
+        # a violation that was already reported stands: vacuity / bookkeeping guards that trip afterwards
+        # (typically *because* of the violating behaviour) must not turn the verdict into a tool error
+        if c is not None and c.violations:
+            try:
+                c.cov["evaluations"] = max(c.cov["evaluations"], 1)
+                c.cov["distinct_nontrivial"] = max(c.cov["distinct_nontrivial"], 2)
+                if not c.cov["samples"]:
+                    c.cov["samples"] = [{"note": "run aborted by a tool error after violations were reported"}]
+                c.notes.append("tool error after violations: %s" % e)
+                c.finish()
+            except Exception:
+                pass
+            sys.exit(1)
         sys.exit(2)
     sys.exit(rc)
